@@ -230,6 +230,23 @@ func (d *Driver) GenVC(key string, safety bool, lockCheck bool) (fvc *FuncVC) {
 	for _, p := range fn.Params {
 		args = append(args, mkParam(p.Name(), p.Type()))
 	}
+	// scalar fields of pointer parameters at entry are model inputs too (for replay)
+	for i, p := range fn.Params {
+		if args[i].S.K == KRef {
+			if si := d.w.structs[args[i].S.Name]; si != nil {
+				for _, f := range si.Fields {
+					if f.Sort.K == KInt || f.Sort.K == KString || f.Sort.K == KBool {
+						syms = append(syms, [2]string{p.Name() + "." + f.Name, "(select " + ex.get(st, ex.fieldVar(si.Name, f.Name, f.Sort)) + " " + args[i].T + ")"})
+					}
+				}
+			}
+		}
+	}
+	for g := range d.spec.ghosts {
+		if gs := d.spec.ghosts[g]; gs.K == KInt {
+			syms = append(syms, [2]string{"ghost." + g, ex.get(st, g)})
+		}
+	}
 	var binds []*Val
 	for _, fv := range fn.FreeVars {
 		binds = append(binds, mkParam("fv_"+fv.Name(), fv.Type()))
